@@ -334,15 +334,23 @@ pub fn large_inputs(f: &mut dyn FnMut(&[u8])) {
 }
 
 /// (e) Exhaustive SDES bodies of `words` 32-bit words over the alphabet {0,1,2,8}
-/// (optionally behind an SSRC prefix word), with SC in `scs`, with and without a
-/// 4-byte padding trailer.
-pub fn sdes_small_alphabet(
+/// (optionally behind an SSRC prefix word), with SC in `scs`, without padding and with a
+/// 4-byte and an 8-byte padding trailer.
+pub fn sdes_small_alphabet(words: usize, shard: usize, nshards: usize, f: &mut dyn FnMut(&[u8])) -> u64 {
+    sdes_small_alphabet_over([0, 1, 2, 8], words, shard, nshards, f)
+}
+
+/// The same enumeration over another 4-letter alphabet (e.g. {0,1,4,6}: item lengths that end
+/// exactly at the end of a 4-byte padding trailer).
+pub fn sdes_small_alphabet_over(
+    alpha: [u8; 4],
     words: usize,
     shard: usize,
     nshards: usize,
     f: &mut dyn FnMut(&[u8]),
 ) -> u64 {
-    const ALPHA: [u8; 4] = [0, 1, 2, 8];
+    #[allow(non_snake_case)]
+    let ALPHA = alpha;
     let nbytes = 4 * words;
     let total: u64 = 1u64 << (2 * nbytes);
     let mut n = 0;
@@ -351,7 +359,7 @@ pub fn sdes_small_alphabet(
     let mut v: Vec<u8> = Vec::with_capacity(32);
     while idx < total {
         for (pi, pre) in prefixes.iter().enumerate() {
-            for padded in [false, true] {
+            for padded in [0usize, 4, 8] {
                 v.clear();
                 v.extend_from_slice(&[0x80, 202, 0, 0]);
                 v.extend_from_slice(pre);
@@ -360,8 +368,9 @@ pub fn sdes_small_alphabet(
                     v.push(ALPHA[(x & 3) as usize]);
                     x >>= 2;
                 }
-                if padded {
-                    v.extend_from_slice(&[0, 0, 0, 4]);
+                if padded > 0 {
+                    v.extend(std::iter::repeat(0).take(padded - 1));
+                    v.push(padded as u8);
                     v[0] |= 0x20;
                 }
                 let w = (v.len() / 4 - 1) as u16;
